@@ -2,12 +2,13 @@
 # run every registered check's quick tier against /repo and validate the evidence
 cd "$(dirname "$0")/.." || exit 2
 rc=0
+L=$(mktemp -d /tmp/verif-runall-XXXXXX)
 for p in $(python3 -c "import json; print(' '.join(c['property_id'] for c in json.load(open('MANIFEST.json'))['checks']))"); do
     s=$(date +%s)
-    ./check $p --tier ${1:-quick} > /tmp/verif-$p.log 2>&1
+    ./check $p --tier ${1:-quick} > $L/$p.log 2>&1
     e=$?
-    printf "%s exit=%s %ss  %s\n" $p $e $(( $(date +%s) - s )) "$(head -1 /tmp/verif-$p.log | cut -c1-140)"
-    grep -h "KNOWN-FINDING\|VIOLATION\|HARNESS" /tmp/verif-$p.log | cut -c1-160
+    printf "%s exit=%s %ss  %s\n" $p $e $(( $(date +%s) - s )) "$(head -1 $L/$p.log | cut -c1-140)"
+    grep -h "KNOWN-FINDING\|VIOLATION\|HARNESS" $L/$p.log | cut -c1-160
     [ $e -ne 0 ] && rc=1
 done
 python3-vt - <<'PY'
@@ -25,4 +26,5 @@ for c in m['checks']:
         bad += 1; print('EVIDENCE PROBLEM', f, str(e)[:200])
 print('manifest + evidence valid' if not bad else f'{bad} evidence problems')
 PY
+rm -rf $L
 exit $rc
